@@ -55,7 +55,7 @@ def post(check, pairs, stats):
         args += ["-modfile", mf]
     args.append("./cmd/c10")
     with vcheck.Lock("go"):
-        b = subprocess.run(args, cwd=vcheck.HARNESS, env=vcheck.GOENV, stdout=subprocess.PIPE, stderr=subprocess.STDOUT, text=True)
+        b = subprocess.run(args, cwd=vcheck.HARNESS, env=dict(vcheck.GOENV, CGO_ENABLED="1"), stdout=subprocess.PIPE, stderr=subprocess.STDOUT, text=True)
     if b.returncode != 0:
         vcheck.log("C10: -race build not available: %s" % b.stdout.strip()[-200:])
         check.cfg["explanation"] = "race probe: go build -race failed (no race runtime?)"
